@@ -1,7 +1,7 @@
 #!/bin/bash
 # usage: tools/reconfirm.sh <seed|all>  -- re-verify kept seeds against /repo HEAD in the scratch worktree:
 # patch applies and builds, baseline suite passes with it, demo fails with it and passes without it.
-SCR=/tmp/wt/scratch
+SCR=${SCR:-/tmp/wt/scratch}
 export GOFLAGS=-mod=mod GOPROXY=off
 if [ ! -d "$SCR" ]; then git -C /repo worktree add -q --detach "$SCR" HEAD || exit 2; fi
 git -C "$SCR" checkout -q --detach "$(git -C /repo rev-parse HEAD)" 2>/dev/null
@@ -27,15 +27,15 @@ one() {
     cp "$f" "$d/zz_seed_$bn"; placed+=("$d/zz_seed_$bn")
   done
   # the test command is what follows the last '&&' that starts a go test
-  local cmd; cmd=$(echo "$demo" | grep -o 'go test.*$' | head -1)
+  local cmd; cmd=$(echo "$demo" | grep -o 'go test.*$' | head -1 | sed 's/ *;.*$//; s/ *&&.*$//')
   [ -z "$cmd" ] && { echo "$seed: NO-DEMO-CMD"; return; }
-  local without; if eval "$cmd" >/tmp/rc.$$.out 2>&1; then without=pass; else without=FAIL; fi
+  local without; if eval "$cmd" >/tmp/rc.$$.$RANDOM.out 2>&1; then without=pass; else without=FAIL; fi
   if ! git apply "$dir/patch.diff" 2>/dev/null; then echo "$seed: PATCH-DOES-NOT-APPLY"; rm -f "${placed[@]}"; return; fi
   local build=ok; go build ./... >/dev/null 2>&1 || build=FAIL
-  local with; if eval "$cmd" >/tmp/rc.$$.out 2>&1; then with=pass; else with=FAIL; fi
+  local with; if eval "$cmd" >/tmp/rc.$$.$RANDOM.out 2>&1; then with=pass; else with=FAIL; fi
   rm -f "${placed[@]}"
-  local base; if go test -vet=off -count=1 ./... >/tmp/rc.$$.out 2>&1; then base=pass; else base=FAIL; fi
-  git checkout -q -- .; git clean -qfd; rm -f /tmp/rc.$$.out
+  local base; if go test -vet=off -count=1 ./... >/tmp/rc.$$.$RANDOM.out 2>&1; then base=pass; else base=FAIL; fi
+  git checkout -q -- .; git clean -qfd; rm -f /tmp/rc.$$.$RANDOM.out
   if [ "$build" = ok ] && [ "$base" = pass ] && [ "$with" = FAIL ] && [ "$without" = pass ]; then echo "$seed: confirmed"; else echo "$seed: NOT-CONFIRMED build=$build baseline=$base demo-with=$with demo-without=$without"; fi
 }
 if [ "$1" = all ]; then for d in $(ls /verif/seeded); do one "$d"; done; else one "$1"; fi
